@@ -141,8 +141,8 @@ def run_case(case: Dict) -> CaseResult:
 def worker(ctx: Ctx):
     paths = usable_shipped()
     q = ctx.tier == "quick"
-    hyp_run(ctx, gen_case_strategy(max_ops=30), run_case, 35 if q else 1200, sub=0)
-    hyp_run(ctx, shipped_case_strategy(paths, max_ops=25), run_case, 10 if q else 500, sub=1)
+    hyp_run(ctx, gen_case_strategy(max_ops=30), run_case, 35 if q else 600, sub=0)
+    hyp_run(ctx, shipped_case_strategy(paths, max_ops=25), run_case, 10 if q else 200, sub=1)
     try:
         from . import c02_components
 
